@@ -463,16 +463,16 @@ Balanced(bt, toks) ==
      bt[i].s \in OpenClasses =>
         \A j \in 1..Len(bt) : (bt[j].s = "c" \o FamOf(bt[i].s)) => DepthOf[toks[i]] = DepthOf[toks[j]]
 
-\* verdict of one base on a line: <<class, why>>, given the first position j whose token
+\* verdict of one base on a line: <<class, why, position of the bad token>>, given the first position j whose token
 \* is not good for its slot
 VerdictAt(b, toks, j) ==
   LET bt == b.toks IN
   IF j = 0
-    THEN IF Len(bt) = Len(toks) /\ Balanced(bt, toks) THEN <<"D", "">> ELSE <<"X", "">>
+    THEN IF Len(bt) = Len(toks) /\ Balanced(bt, toks) THEN <<"D", "", 0>> ELSE <<"X", "", 0>>
   ELSE IF BadAt(bt[j], toks[j])
           /\ (j >= b.commit \/ (Len(toks) >= b.commit /\ FirstNot(bt, toks, j + 1, b.commit) = 0))
-    THEN <<"E", Why(bt[j].s, toks[j])>>
-  ELSE <<"X", "">>
+    THEN <<"E", Why(bt[j].s, toks[j]), j>>
+  ELSE <<"X", "", 0>>
 
 \* (TLC re-evaluates LET definitions on every use; binding through a singleton set
 \* evaluates once)
@@ -481,13 +481,15 @@ Verdict(b, toks) ==
 
 Verdicts(k, toks) == IF k \in Kinds THEN {<<i, Verdict(Bases[i], toks)>> : i \in ByKind[k]} ELSE {}
 
-\* [c: class, w: why, b: index of a base that decides (0 for X), amb: both D and E apply]
+\* [c: class, w: why, b: index of a base that decides (0 for X), amb: both D and E apply,
+\*  at: position of the bad token for E]
 ClassFrom(vs) ==
   LET ds == {v \in vs : v[2][1] = "D"}
       es == {v \in vs : v[2][1] = "E"}
-  IN IF ds # {} THEN [c |-> "D", w |-> "", b |-> (CHOOSE v \in ds : TRUE)[1], amb |-> es # {}]
-     ELSE IF es # {} THEN LET v == CHOOSE v \in es : \A u \in es : v[1] <= u[1] IN [c |-> "E", w |-> v[2][2], b |-> v[1], amb |-> FALSE]
-     ELSE [c |-> "X", w |-> "", b |-> 0, amb |-> FALSE]
+  IN IF ds # {} THEN [c |-> "D", w |-> "", b |-> (CHOOSE v \in ds : TRUE)[1], amb |-> es # {}, at |-> 0]
+     ELSE IF es # {} THEN LET v == CHOOSE v \in es : \A u \in es : v[1] <= u[1]
+                          IN [c |-> "E", w |-> v[2][2], b |-> v[1], amb |-> FALSE, at |-> v[2][3]]
+     ELSE [c |-> "X", w |-> "", b |-> 0, amb |-> FALSE, at |-> 0]
 
 Classify(k, toks) == CHOOSE r \in {ClassFrom(vs) : vs \in {Verdicts(k, toks)}} : TRUE
 
@@ -570,8 +572,8 @@ Singles(bi, i) ==
        \cup (IF c \in OpenClasses
                THEN LET f == FamOf(c)  j == CHOOSE j \in 1..L : b.toks[j].s = "c" \o f IN
                     {Mut("nest", i, OpenTok(f, d), j, CloseTok(f, d)) : d \in Depths \ {1}}
-                    \cup {Mut("rep", i, OpenTok(f, d), 0, "") : d \in Depths \ {1}}
-                    \cup {Mut("cut", i, OpenTok(f, d), 0, "") : d \in Depths \ {1}}
+                    \cup {Mut("rep", i, OpenTok(f, d), 0, "") : d \in {d \in Depths \ {1} : d <= Cap + 1 \/ Stride = 1 \/ KeepDeep(bi, i)}}
+                    \cup {Mut("cut", i, OpenTok(f, d), 0, "") : d \in {d \in Depths \ {1} : d <= Cap + 1 \/ Stride = 1 \/ KeepDeep(bi, i)}}
                ELSE {})
 
 \* double mutations: a second single-token edit (small alphabet) after the first
@@ -611,7 +613,7 @@ Init ==
   /\ base \in 1..NB
   /\ pos \in 0..Len(Bases[base].toks)
   /\ phase = "pick"
-  /\ line = <<>> /\ cls = [c |-> "X", w |-> "", b |-> 0, amb |-> FALSE] /\ mut = <<NoMut>>
+  /\ line = <<>> /\ cls = [c |-> "X", w |-> "", b |-> 0, amb |-> FALSE, at |-> 0] /\ mut = <<NoMut>>
 
 Generate(ms) ==
   /\ phase' = "done"
